@@ -68,11 +68,17 @@ prop("C03", level="proof",
 prop("C13", level="proof",
      level_text="Unbounded proof for module rules: Rule.assert_applies raises ImproperlyConfigured / RuleInconsistency / ImpossibleMatch / NetworkXError exactly in the "
                 "incomplete, contradictory, unmatched-regex and unknown-name cases (exact raises-iff contracts down to the graph searches), so none of them yields a verdict; "
-                "every builder method is under contract, hence the claim holds after every finite call sequence. Layer rules, diagram rules and entry-point options: "
-                "bounded stand-ins against specification automata.",
-     level_note=_RULE_NOTE + " Bounded (not proved): call chains of LayerRule / DiagramRule / get_evaluable_architecture option validation.",
+                "every builder method is under contract, hence the claim holds after every finite call sequence. Entry-point options (PROVED, string view): "
+                "get_evaluable_architecture raises ImproperlyConfigured exactly when glob and regex exclusions are both non-empty, or glob and regex external exclusions are both "
+                "non-empty, or externals are excluded and an external pattern is given (None and the empty tuple both mean 'no pattern'), raises ValueError exactly when the request is "
+                "otherwise valid and module_path is not root_path or below it (assumed pathlib relative_to contract), and in all those cases the graph constructor is never called "
+                "(ghost log of constructor calls unchanged), so no architecture exists that could produce a verdict; get_evaluable_architecture_for_module_objects raises in exactly the "
+                "same cases on the modules' directories. Layer rules and diagram rules: bounded stand-ins against specification automata.",
+     level_note=_RULE_NOTE + " Bounded (not proved): call chains of LayerRule / DiagramRule. Assumed for the entry points: pathlib.Path(s), Path.relative_to (ValueError iff not below), "
+                "os.sep, os.path.dirname, module.__file__; the graph constructor call as a frame-only placeholder contract (NetworkxGraph.__init__@ctor-call).",
      explanation="No verdict from undefined or incomplete specifications: exact exceptional postconditions + builder contracts.",
-     roots=["Rule.assert_applies", "C13_unknown_name_never_a_verdict", "C13_outcomes_exclusive", "C13_should_not_with_other_verb_is_contradictory"],
+     roots=["Rule.assert_applies", "C13_unknown_name_never_a_verdict", "C13_outcomes_exclusive", "C13_should_not_with_other_verb_is_contradictory",
+            "get_evaluable_architecture", "get_evaluable_architecture_for_module_objects"],
      bounded=[_b("builders", "bounded_rule_chains"), _b("builders", "bounded_unknown_names"), _b("builders", "bounded_other_builders")], trusted_base=_TB)
 prop("C14", level="proof",
      level_text="Functions on the verdict path are verified with module names as an UNINTERPRETED sort (they can only compare names for equality, so results are invariant under "
@@ -120,20 +126,33 @@ prop("C02", level="other",
 prop("C04", level="other",
      level_text="Mixed. PROVED (string view): Parser.parse registers exactly one module per non-excluded directory and per non-excluded .py file reached from module_path through non-excluded "
                 "directories (worklist invariant for unbounded trees and ANY enumeration order, under the tree-unfolding schema); _parse_file / _file_should_be_parsed; get_parent_modules = "
-                "dotted ancestors; _get_internal_module_prefix, _get_all_internal_modules, _adjust_with_root_prefix (both import spellings). BOUNDED: module naming from paths, graph construction "
-                "(nodes, hierarchy edges), sub-directory scan = restriction of the whole-root scan (also sibling scans in fresh processes), module-object entry point: random directory trees "
+                "dotted ancestors; _get_internal_module_prefix, _get_all_internal_modules, _adjust_with_root_prefix (both import spellings). Parser.parse also pins the list of parsed files "
+                "(exactly the non-excluded .py files of the scan). Parser._get_module_name (string view): root directory name, '.', the path relative to the root with the suffix removed "
+                "and separators replaced by '.' (the root's own name for the root itself). COMPOSITION (generate_graph, get_evaluable_architecture, over a ghost log of the graph-constructor "
+                "call): the module list handed to the constructor contains every scanned module and, with externals excluded, nothing else; the import list is the converter's output "
+                "for exactly the parsed files with the absolute-import prefix of the property ('' for module_path == root_path, else the dotted path of module_path's parent relative "
+                "to root_path's parent). Module-object entry point: raises in the same cases and satisfies literally the path entry point's postcondition on "
+                "dirname(root_module.__file__), dirname(module.__file__) with every option in its own position. BOUNDED: graph construction from the lists (nodes, hierarchy edges; the constructor "
+                "call is a frame-only placeholder contract), sub-directory scan = restriction of the whole-root scan (also sibling scans in fresh processes): random directory trees "
                 "through the real entry points.",
-     level_note="Assumed: pathlib (is_dir, iterdir, resolve as identity, suffix, str), open/read, ast.parse, Parser._get_module_name as the function mod_name. " + _BND_NOTE +
+     level_note="Assumed: pathlib (is_dir, iterdir, resolve as identity, suffix, str, Path(s), parent, relative_to, with_suffix('')), os.sep, os.path.dirname, module.__file__, open/read, ast.parse; "
+                "in Parser.parse's contract the module name is the function mod_name (its string definition is proved on Parser._get_module_name, linked by name; assumed: scanned paths lie below the root). " + _BND_NOTE +
                 "Input validity: no x.py next to a directory x, component names without '.'.",
      technique=_BND_TECH, explanation="scan mirrors the directory tree",
-     roots=["Parser.parse", "Parser._parse_file", "Parser._file_should_be_parsed", "get_parent_modules", "_get_internal_module_prefix", "_get_all_internal_modules", "ImportConverter._adjust_with_root_prefix"],
+     roots=["Parser.parse", "Parser._parse_file", "Parser._file_should_be_parsed", "get_parent_modules", "_get_internal_module_prefix", "_get_all_internal_modules", "ImportConverter._adjust_with_root_prefix",
+            "Parser._get_module_name@str", "generate_graph", "get_evaluable_architecture", "get_evaluable_architecture_for_module_objects"],
      bounded=[_b("projects", "bounded_tree_mirror")], trusted_base=_TB)
 prop("C08", level="proof",
      level_text="Proved (string view): convert_partial_match_to_regex returns exactly ('.*' if leading *) + re.escape(text) + ('.*' if trailing * else '$'), and for EVERY literal text the four "
-                "shapes denote equality / suffix / prefix / substring under re.match (lemmas glob_shape_*; all strings, not only short ones). Bounded: the conversion is also run exhaustively on "
-                "short strings against the glob semantics, and real scans with exclusions are compared with the unfiltered scan minus the matching sub-trees.",
+                "shapes denote equality / suffix / prefix / substring under re.match (lemmas glob_shape_*; all strings, not only short ones). Parser.parse: an excluded directory is neither "
+                "registered nor descended into, an excluded file is neither registered nor parsed (module list AND list of parsed files in closed form). Option handling in "
+                "get_evaluable_architecture: glob and regex exclusions are mutually exclusive (ImproperlyConfigured iff both non-empty); the effective patterns are the translations of the glob "
+                "patterns when `exclusions` is non-empty, else regex_exclusions as given, and None / the empty tuple mean no pattern; exactly these patterns reach the scan, and the import "
+                "converter sees exactly the non-excluded files. Bounded: the conversion is also run exhaustively on "
+                "short strings against the glob semantics, and real scans with exclusions are compared with the unfiltered scan minus the matching sub-trees (the relational 'scan with pattern = scan without minus sub-trees' "
+                "statement is not a lemma yet).",
      level_note="Assumed: re.escape(t) denotes exactly t, '.*' any newline-free string, '$' end of string (paths contain no newline). " + _BND_NOTE, technique=_BND_TECH,
-     explanation="glob->regex proved on strings; pruning behaviour bounded", roots=["convert_partial_match_to_regex@str", "glob_shape_exact", "glob_shape_suffix", "glob_shape_prefix", "glob_shape_infix"],
+     explanation="glob->regex proved on strings; pruning behaviour bounded", roots=["convert_partial_match_to_regex@str", "glob_shape_exact", "glob_shape_suffix", "glob_shape_prefix", "glob_shape_infix", "Parser.parse", "get_evaluable_architecture"],
      bounded=[_b("projects", "bounded_exclusions")], trusted_base=_TB)
 prop("C09", level="other",
      level_text="Mixed. PROVED: the limit arithmetic (_add_extra_levels_to_limit_if_root_and_module_path_differ: raised by the number of dotted components between root_path and module_path), "
@@ -145,11 +164,16 @@ prop("C10", level="proof",
      level_text="Proved (string view) for every stage that implements the external options: ExternalImportFilter.filter keeps every import whose importee is internal in EVERY "
                 "configuration and drops an external import iff the importee or one of its dotted ancestors matches a pattern; ImporteeModuleCalculator adds exactly the importees and their "
                 "dotted ancestors; _append_external_modules_to_module_list never removes a scanned module and filters only added externals; _remove_excluded_imports / "
-                "_get_all_internal_modules / _get_internal_module_prefix carry the same frame. The composition through generate_graph and the graph constructor is covered by the bounded "
+                "_get_all_internal_modules / _get_internal_module_prefix carry the same frame. COMPOSITION (generate_graph / get_evaluable_architecture, over a ghost log of the graph-constructor call): "
+                "with externals excluded the module list handed to the constructor is exactly the scan and no import to a module outside the scanned tree reaches it; with externals "
+                "included the additional modules are exactly the importees (and dotted ancestors) of the imports that reach the constructor and leave the tree, minus those matching an "
+                "effective external pattern; every scanned module and every converted import into the scanned tree reaches the constructor under EVERY external option; the external "
+                "options are only passed through (validated, glob patterns translated). What the constructor builds from the lists is covered by the bounded "
                 "stand-in that scans random projects under every option set.",
      level_note="Assumed: re.match / re.compile (uninterpreted relation), pathlib.Path.name / str(), get_parent_modules' contract (dotted ancestors; proved separately where claimed), generated "
                 "dataclass __init__. " + _BND_NOTE, technique=_BND_TECH, explanation="external options frame: per-stage contracts + bounded pipeline check",
-     roots=["ExternalImportFilter.filter", "_append_external_modules_to_module_list", "_remove_excluded_imports", "ImporteeModuleCalculator.calculate_importee_modules"],
+     roots=["ExternalImportFilter.filter", "_append_external_modules_to_module_list", "_remove_excluded_imports", "ImporteeModuleCalculator.calculate_importee_modules",
+            "generate_graph", "get_evaluable_architecture"],
      bounded=[_b("projects", "bounded_externals")], trusted_base=_TB)
 prop("C05", level="other",
      level_text="Mixed. PROVED: the layer detector's treatment of same-layer pairs -- LayerRuleViolationDetector._get_realised_dependencies keeps exactly the reported pairs that cross a layer "
@@ -178,6 +202,9 @@ prop("C07", level="other",
 prop("C17", level="other",
      level_text="Mixed. PROVED (string view, all strings, any number of aliases): NetworkxGraph._create_label returns the alias of the LONGEST aliased module that equals the module or is a dotted "
                 "ancestor of it, followed by the rest of the name, and the full name when none applies (label_ok); _create_plot_labels_with_alias labels exactly the graph's nodes, each with "
-                "label_ok, and raises KeyError iff an aliased module is not a node; _assert_aliased_modules_exist. BOUNDED: draw()'s keyword pass-through and the composition: labels, existence check and keyword pass-through observed at the intercepted drawing call for random trees and alias maps (nested aliases, prefix-named "
+                "label_ok, and raises KeyError iff an aliased module is not a node; _assert_aliased_modules_exist. NetworkxGraph.draw (over a ghost log of the back-end call): draw_networkx is called exactly "
+                "once with the graph; 'spacing' is removed and becomes pos = spring_layout(graph, k=spacing, iterations=20); 'aliases' is removed and becomes labels = the label map above; the two "
+                "options are handled independently; every other keyword reaches the back end unchanged; KeyError iff an aliased module is no node, and then nothing is drawn. "
+                "EvaluableArchitectureGraph.visualize is exactly one graph.draw(**kwargs) with every keyword unchanged. BOUNDED: the same composition observed at the intercepted drawing call for random trees and alias maps (nested aliases, prefix-named "
                 "siblings, regex metacharacters).",
-     level_note=_BND_NOTE + "draw_networkx / spring_layout intercepted with unittest.mock.", technique=_BND_TECH, explanation="plot labels", roots=["NetworkxGraph._create_plot_labels_with_alias", "NetworkxGraph._create_label", "NetworkxGraph._assert_aliased_modules_exist"], bounded=[_b("layers", "bounded_labels")], trusted_base=_TB)
+     level_note=_BND_NOTE + "Assumed: draw_networkx / spring_layout / `import matplotlib` as library contracts that only record the call; kwargs['aliases'] is a dict[str, str] (docstring); visualize -> draw linked by name. In the bounded part draw_networkx / spring_layout are intercepted with unittest.mock.", technique=_BND_TECH, explanation="plot labels", roots=["NetworkxGraph._create_plot_labels_with_alias", "NetworkxGraph._create_label", "NetworkxGraph._assert_aliased_modules_exist", "NetworkxGraph.draw", "EvaluableArchitectureGraph.visualize"], bounded=[_b("layers", "bounded_labels")], trusted_base=_TB)
